@@ -311,13 +311,29 @@ Section Core.
 
   Definition WILDCARD : aid := 99.   (* '*' in invalidated_by *)
 
-  (* utils/mutation.py:invalidate_attrs *)
+  (* utils/mutation.py:invalidate_attrs: the transitive set of dependants is
+     collected first (chains are followed through attributes that hold
+     nothing), then each one is reset/deleted exactly once *)
+  Definition dependants (k : cls) (x : aid) : list aid :=
+    map a_name (filter (fun sp => existsb (fun y => (y =? x) || (y =? WILDCARD)) (a_inv_by sp))
+                       (c_attrs k)).
+  Fixpoint inv_closure (fuel : nat) (k : cls) (pending seen : list aid) : list aid :=
+    match fuel with
+    | O => seen
+    | S f =>
+        match pending with
+        | [] => seen
+        | x :: rest =>
+            let new := filter (fun y => negb (existsb (fun z => z =? y) seen)) (dependants k x) in
+            inv_closure f k (rest ++ new) (seen ++ new)
+        end
+    end.
   Definition invalidate_attrs (l : loc) (a : aid) : M unit :=
     p <- read_inst l ;; k <- cls_of (fst p) ;;
+    let cl := inv_closure (S (S (length (c_attrs k)))) k [a] [a] in
     iterM (fun sp =>
-             if (existsb (fun x => (x =? a) || (x =? WILDCARD)) (a_inv_by sp))
-                && negb (a_name sp =? a)
-             then catch (rec (KDelAttr l (a_name sp) false false) ;;; ret tt)
+             if existsb (fun z => z =? a_name sp) cl && negb (a_name sp =? a)
+             then catch (rec (KDelAttr l (a_name sp) false true) ;;; ret tt)
                         (fun e => err_eqb e AttrErr) (ret tt)
              else ret tt)
           (c_attrs k).
